@@ -87,7 +87,20 @@ def subst_term(t, mapping):
     """replace sub-terms (DAG-safe)"""
     memo = {}
 
+    def rec_atom(at):
+        if isinstance(at, tuple):
+            return tuple(rec(y) if isinstance(y, (Term, Dim)) else (rec_atom(y) if isinstance(y, tuple) else y) for y in at)
+        return at
+
     def rec(x):
+        if isinstance(x, Dim):
+            if all(isinstance(at, str) for at, _ in x.lin):
+                return x
+            d = {}
+            for at, k in x.lin:
+                na = rec_atom(at)
+                d[na] = d.get(na, 0) + k
+            return Dim(x.c, d)
         if not isinstance(x, Term):
             if isinstance(x, tuple):
                 return tuple(rec(y) for y in x)
@@ -1085,6 +1098,11 @@ class Interp:
             elif init is None or init.kind == "undef":
                 shape = base.shape
             kind = base.kind if (init is None or init.kind in ("undef", base.kind)) else ("float" if {init.kind, base.kind} <= {"int", "float"} else base.kind)
+            if shape is not None:
+                # an extent that depends on the loop variable (ragged elements) does not survive the loop as
+                # such: after the loop it is the extent of the value the loop left behind (sibling loops re-use labels)
+                lvt_ = T("lv", lid)
+                shape = tuple(Dim(0, {("t", T("shapeof", term, const(ax_))): 1}) if any(isinstance(at_, tuple) and at_[0] == "t" and loops.mentions(at_[1], lvt_) for at_, _ in d_.lin) else d_ for ax_, d_ in enumerate(shape))
             nv = V(kind if kind not in ("maybe",) else "unk", term, shape=shape, orig=(init.orig if init is not None else frozenset()) | base.orig, labels=(init.labels if init is not None else frozenset()) | base.labels | cl, loc=base.loc, obj=base.obj if kind == "obj" else None, func=base.func if kind == "func" else None, items=None)
             if kind in ("list",) :
                 nv = nv.replace(items=None)
